@@ -511,6 +511,17 @@ class History(object):
         rng = self.rng
         with self.call("writer.reader", w.reader) as r:
             dmap = self.docmap(r)
+            n_all = r.doc_count_all()
+        if rng.random() < 0.12:
+            # a stale / out-of-range document number (first number past the last document, or beyond): whether the writer
+            # refuses it (it does: IndexingError) or ignores it, it must not change what is deleted - doc_count() and every
+            # read API are compared with the model after the commit as usual
+            bad = n_all + rng.choice([0, 0, 0, 1, 7])
+            self.op("delete_docnum_out_of_range", "delete_document(%d) with %d document numbers in the index" % (bad, n_all))
+            try:
+                w.delete_document(bad)
+            except Exception:  # noqa - the documented refusal
+                self.ctx.count("c07.out_of_range_delete_refused")
         cand = [sn for sn in sess.vis if sn in dmap]
         if not cand:
             return False
